@@ -301,8 +301,13 @@ impl AtomicBool {
     }
 }
 
-#[derive(Debug)]
 pub struct AtomicPtr<T>(sa::AtomicPtr<T>);
+
+impl<T> std::fmt::Debug for AtomicPtr<T> {
+    fn fmt(&self, f: &mut std::fmt::Formatter) -> std::fmt::Result {
+        self.0.fmt(f)
+    }
+}
 
 impl<T> Default for AtomicPtr<T> {
     fn default() -> Self {
@@ -501,6 +506,62 @@ pub mod libc_facade {
     pub use real_libc::*;
 
     use super::{syscall_post, syscall_pre};
+
+    #[track_caller]
+    pub unsafe fn send(fd: c_int, buf: *const c_void, len: size_t, flags: c_int) -> ssize_t {
+        let (e, inj) = syscall_pre("send", fd as i64, ((flags as i64) << 32) | len as i64);
+        let r = match inj {
+            Some(v) => v as ssize_t,
+            None => ::real_libc::send(fd, buf, len, flags),
+        };
+        syscall_post(&e, r as i64);
+        r
+    }
+
+    #[track_caller]
+    pub unsafe fn recv(fd: c_int, buf: *mut c_void, len: size_t, flags: c_int) -> ssize_t {
+        let (e, inj) = syscall_pre("recv", fd as i64, ((flags as i64) << 32) | len as i64);
+        let r = match inj {
+            Some(v) => v as ssize_t,
+            None => ::real_libc::recv(fd, buf, len, flags),
+        };
+        syscall_post(&e, r as i64);
+        r
+    }
+
+    #[track_caller]
+    pub unsafe fn write(fd: c_int, buf: *const c_void, len: size_t) -> ssize_t {
+        let (e, inj) = syscall_pre("write", fd as i64, len as i64);
+        let r = match inj {
+            Some(v) => v as ssize_t,
+            None => ::real_libc::write(fd, buf, len),
+        };
+        syscall_post(&e, r as i64);
+        r
+    }
+
+    #[track_caller]
+    pub unsafe fn close(fd: c_int) -> c_int {
+        let (e, inj) = syscall_pre("close", fd as i64, 0);
+        let r = match inj {
+            Some(v) => v as c_int,
+            None => ::real_libc::close(fd),
+        };
+        syscall_post(&e, r as i64);
+        r
+    }
+
+    /// the two-argument-plus-int form the library uses
+    #[track_caller]
+    pub unsafe fn fcntl(fd: c_int, cmd: c_int, arg: c_int) -> c_int {
+        let (e, inj) = syscall_pre("fcntl", fd as i64, ((cmd as i64) << 32) | (arg as u32 as i64));
+        let r = match inj {
+            Some(v) => v as c_int,
+            None => ::real_libc::fcntl(fd, cmd, arg),
+        };
+        syscall_post(&e, r as i64);
+        r
+    }
 
     #[track_caller]
     pub unsafe fn sigaction(sig: c_int, act: *const ::real_libc::sigaction, old: *mut ::real_libc::sigaction) -> c_int {
